@@ -704,7 +704,19 @@ func Step(g *G, gs *gripql.GraphStatement, ts []*Trav, s *State) (out []*Trav, o
 			for _, item := range l {
 				c := *t.Cur
 				c.Data = deepCopyMap(t.Cur.Data)
-				c.Data[st.Unwind] = deepCopy(item)
+				// the list is replaced by its element where it stands, also
+				// below the top level ("a.b"): every row gets its own copy of
+				// the enclosing maps
+				parts := strings.Split(strings.TrimPrefix(st.Unwind, "_data."), ".")
+				m := c.Data
+				for _, k := range parts[:len(parts)-1] {
+					sub, ok := m[k].(map[string]interface{})
+					if !ok {
+						return nil, false, "unwind through a non-map (outside the modelled subset)"
+					}
+					m = sub
+				}
+				m[parts[len(parts)-1]] = deepCopy(item)
 				nt = append(nt, t.move(&c))
 			}
 		}
